@@ -25,8 +25,17 @@ def cigar(n):
 
 def r1(n_cigar, tags, absent=('RR', 'DS', 'RS', 'RZ')):
     def mk(eng, name):
-        return stubs.make_read(eng, name, tags=tags, fields={'seq': STR, 'cigartuples': cigar(n_cigar)},
-                               absent_tags=absent)
+        r = stubs.make_read(eng, name, tags=tags, fields={'seq': STR, 'cigartuples': cigar(n_cigar)},
+                            absent_tags=absent)
+        # pysam: query_alignment_sequence = the read bases without the soft-clipped ends (assumed contract, A4)
+        from pyvc.engine import Sym
+        seq, ops = r.attrs['seq'], r.attrs['cigartuples']
+        left = z3.If(ops[0][0].z == 4, ops[0][1].z, 0)
+        right = z3.If(ops[-1][0].z == 4, ops[-1][1].z, 0) if len(ops) > 1 else z3.IntVal(0)
+        eng.assume(left + right <= z3.Length(seq.z))
+        r.attrs['query_alignment_sequence'] = Sym(z3.SubString(seq.z, left, z3.Length(seq.z) - left - right), STR)
+        r.attrs['query_sequence'] = seq
+        return r
     return mk
 
 
